@@ -18,7 +18,7 @@ _s.loader.exec_module(ch)
 def run(ctx):
     if ctx.only is None:
         vlib.tlc_mc(ctx, "BlockPar_MC", ctx.pick("BlockPar_MC_quick.cfg", "BlockPar_MC.cfg"), timeout=1500)
-    files = ch.record(ctx, "^TestVerifChainExec$", "c01", ctx.pick(40, 600), maxtxs=ctx.pick(6, 10))
+    files = ch.record(ctx, "^TestVerifChainExec$", "c01", ctx.pick(100, 1200), maxtxs=ctx.pick(6, 10))
     feats = ch.stats(ctx, files)
     if ctx.only is None and (feats["multi_tx"] == 0 or feats["max_parallel_ge2"] == 0):
         raise vlib.Infra("vacuous: no multi-transaction block or no run with two actions in flight at once")
